@@ -76,7 +76,7 @@ def gen_node(rng, depth, allowed):
     many = rng.random() < 0.04
     if rng.random() < 0.5:
         n = rng.randint(1, 4) if not many else rng.randint(17, 40)
-        keys = rng.sample(["a", "b", "c", "d", "e_", "_f", "g0"], n) if not many else [f"k{i}" for i in range(n)]
+        keys = rng.sample(["a", "b", "c", "d", "e_", "_f", "g0", "a__b", "a__0", "b__0"], n) if not many else [f"k{i}" for i in range(n)]
         return ["dict", [[k, gen_node(rng, depth - 1 if not many else 0, allowed)] for k in keys]]
     return ["list", [gen_node(rng, depth - 1 if not many else 0, allowed)
                      for _ in range(rng.randint(1, 3) if not many else rng.randint(17, 70))]]
